@@ -242,7 +242,7 @@ type cafsCfg struct {
 	eofReads      bool // the store's readers deliver their last bytes together with io.EOF, in pieces of 1000 bytes
 }
 
-const stepWait = 3 * time.Second
+const stepWait = 15 * time.Second
 
 func newCafs(cfg *cafsCfg, backend storage.Store, cc int) (cafs.Fs, error) {
 	opts := []cafs.Option{
